@@ -448,6 +448,35 @@ func checkC07(c *Ctx) {
 			add("selfstore", fmt.Sprintf(`a = %s; a[0] = 100; %s; a[0] = 200; println(a); println(a == a, len(a), json(a))`, init, self))
 		}
 	}
+	// 2g. two images of every pair of sizes combined, drawn and read at and beyond their borders
+	for _, wa := range []int{0, 1, 4, 8} {
+		for _, ha := range []int{0, 1, 4, 8} {
+			for _, wb := range []int{1, 4, 8, 9} {
+				for _, hb := range []int{1, 4, 9} {
+					add("image2", fmt.Sprintf(`image.new("a", %d, %d); image.new("b", %d, %d); image.set("b", 0, 0, [255, 0, 0]); image.add("a", "b"); image.add("b", "a"); image.add("a", "a")`, wa, ha, wb, hb))
+				}
+			}
+		}
+	}
+	for _, xy := range []string{"0, 0", "3, 3", "4, 4", "-1, 0", "0, -1", "4, 0", "100, 100", "1.5, 2", `"a", 1`} {
+		for _, fn := range []string{"image.set", "image.set_hsl", "image.set_ycbcr"} {
+			add("image2", fmt.Sprintf(`image.new("a", 4, 4); %s("a", %s, [1, 2, 3]); %s("a", %s, [1, 2, 3, 4]); %s("zz", %s, [1, 2, 3])`, fn, xy, fn, xy, fn, xy))
+		}
+		add("image2", fmt.Sprintf(`image.new("a", 4, 4); image.move_to("a", %s); image.line_to("a", %s); image.quad_to("a", %s, %s); image.cube_to("a", %s, %s, %s); image.close_path("a"); image.draw("a", [1, 2, 3])`, xy, xy, xy, xy, xy, xy, xy))
+	}
+	// 2h. function literals whose body is only comments / comments and one statement / empty, in every literal form
+	for _, body := range []string{"", "// c\n", "// c\n// d\n", "/* c */", "/* c */ /* d */", "// c\n// d\n// e\n", "/* c */ 1", "1 /* c */", "// c\n1\n// d\n", "/* a */ /* b */ x", "// c\nx\n", "x // c\n"} {
+		for _, form := range []string{"f = func() {B}", "f = func(x) {B}", "f = x => {B}", "f = () => {B}", "f = (x, y) => {B}", "func f(x) {B}", "f = func(a, ..) {B}", "m = macro(x) {B}", "[x => {B}]", `{"k": func() {B}}`} {
+			src := strings.ReplaceAll(form, "B", body)
+			add("fnbody", src+"\nprintln(f)\nf(1)\n[f, f] == [f, f]")
+		}
+	}
+	// 2i. quoted code and macro templates containing every index / slice form
+	for _, ix := range []string{"a[1:]", "a[:2]", "a[1:2]", "a[1]", "a.k", "a[-1:]", "a[1:][0]", "a[1:][1:]", "f(a[1:])", "[a[1:]]", "{1: a[1:]}", "-a[1:]", "a[1:] + a[:1]", "unquote(p)[1:]", "unquote(p)[:1]", "unquote(p)[unquote(p)[0]:]", "(x => x[1:])(unquote(p))"} {
+		add("quoteidx", fmt.Sprintf("a = [1, 2, 3]; q = quote(%s); println(q); q", strings.ReplaceAll(ix, "unquote(p)", "a")))
+		add("quoteidx", fmt.Sprintf("a = [1, 2, 3]; m = macro(p) {quote(%s)}; println(m(a)); m([4, 5, 6])", ix))
+		add("quoteidx", fmt.Sprintf("a = [1, 2, 3]; f = func(n) {quote(%s)}; f(1)", strings.ReplaceAll(ix, "unquote(p)", "a[n:]")))
+	}
 	// 3. wild untyped programs
 	nw := c.Pick(3000, 60000)
 	for i := 0; i < nw; i++ {
